@@ -215,6 +215,37 @@ def waiter_scenario(sid, mn, mx, rng, release_index=-1):
     return sc
 
 
+def waiter_update_scenario(sid, mn, mx, rng, kind="incr"):
+    """as waiter_scenario, but the request that is released performs a pool update FROM INSIDE its rule (the documented
+    rule-triggered update) while the waiter is waiting for an instance and the other instances stay busy: the update must
+    go through, the request return, and the waiter then run to completion"""
+    rules = rules_v(1)
+    names = [r["name"] for r in rules]
+    sc = {"id": sid, "min": mn, "max": mx, "model": 1, "rules": rules, "steps": []}
+    rid = sid * 1000
+    held = []
+    u = {"op": "incr", "rules": rules_v(2)[:2]} if kind == "incr" else ({"op": "update", "rules": rules_v(2)} if kind == "update" else {"op": "remove", "names": ["pc"]})
+    for i in range(mx):
+        rid += 1
+        held.append(rid)
+        kw = {"inside": dict(u, hold_at="pa")} if i == 0 else {}
+        sc["steps"].append(req_step(rid, "Execute", names, hold_at="pa", **kw))
+    sc["steps"].append({"op": "snapshot", "probe": names, "_active": list(held), "_done": []})
+    rid += 1
+    waiter = rid
+    sc["steps"].append(req_step(waiter, "Execute", names, hold_at="", wait_ms=-1))
+    sc["steps"].append({"op": "sleep", "wait_ms": 40})
+    sc["steps"].append({"op": "release", "id": held[0], "wait_ms": -1})
+    sc["steps"].append({"op": "wait", "id": held[0]})         # the updating request itself must come back ...
+    sc["steps"].append({"op": "wait", "id": waiter})          # ... and then the waiter (recorded as stuck otherwise)
+    rest = held[1:]
+    sc["steps"].append({"op": "snapshot", "probe": names, "_active": rest, "_done": [held[0], waiter]})
+    for q in rest:
+        sc["steps"].append({"op": "release", "id": q})
+    sc["steps"].append({"op": "snapshot", "probe": names, "_active": [], "_done": held + [waiter]})
+    return sc
+
+
 def storm_scenario(sid, mn, mx, rng, n=600):
     """many short requests from many clients at once (far more than max), none held: the bookkeeping of the free and
     additional lists is exercised under contention; afterwards max simultaneous requests must still be served"""
